@@ -69,15 +69,19 @@ fn token_value(t: u64) -> Value {
 pub enum CallKind {
     Json,
     TypedJson,
+    TypedBeve,
+    TypedSlice(usize),
     Raw(usize),
     Empty,
 }
 
 pub fn draw_kind() -> CallKind {
-    match simkernel::choose(6) {
+    match simkernel::choose(8) {
         0 | 1 => CallKind::Json,
         2 => CallKind::TypedJson,
         3 => CallKind::Empty,
+        4 => CallKind::TypedBeve,
+        5 => CallKind::TypedSlice(pick(&[0usize, 1, 3, 600])),
         _ => CallKind::Raw(pick(&[0usize, 1, 47, 48, 49, 300, 5000])),
     }
 }
@@ -106,6 +110,30 @@ pub async fn do_call(client: &AsyncClient, kind: CallKind, token: u64, to: Optio
             match r {
                 Ok(v) if v == token_value(token) => Ok(()),
                 Ok(v) => Err(format!("WRONG-RESPONSE call {token} got {v}")),
+                Err(e) => Err(format!("error: {e}")),
+            }
+        }
+        CallKind::TypedBeve => {
+            let body = (token, format!("tok-{token}"));
+            let r: Result<(u64, String), _> = match to {
+                Some(d) => client.call_typed_beve_with_timeout(&path, &body, d).await,
+                None => client.call_typed_beve(&path, &body).await,
+            };
+            match r {
+                Ok(v) if v == body => Ok(()),
+                Ok(v) => Err(format!("WRONG-RESPONSE call {token} got {v:?}")),
+                Err(e) => Err(format!("error: {e}")),
+            }
+        }
+        CallKind::TypedSlice(n) => {
+            let body: Vec<f64> = (0..n).map(|i| token as f64 + i as f64 / 8.0).collect();
+            let r: Result<Vec<f64>, _> = match to {
+                Some(d) => client.call_typed_slice_with_timeout(&path, &body, d).await,
+                None => client.call_typed_slice(&path, &body).await,
+            };
+            match r {
+                Ok(v) if v == body => Ok(()),
+                Ok(v) => Err(format!("WRONG-RESPONSE call {token} got a slice of {} (first {:?})", v.len(), v.first())),
                 Err(e) => Err(format!("error: {e}")),
             }
         }
@@ -312,7 +340,7 @@ fn c04_async_client(case: &Case) {
             let case = case.clone();
             hs.push(tokio::spawn(async move {
                 jitter().await;
-                let out = c.batch_json(reqs).await;
+                let out = if simkernel::choose(2) == 0 { c.batch_json(reqs).await } else { c.batch_json_with_timeout(reqs, Duration::from_secs(3_600)).await };
                 if out.len() != expect.len() {
                     case.fail("batch-misaligned", format!("batch of {} returned {} results", expect.len(), out.len()));
                     return;
